@@ -881,6 +881,18 @@ class NetworkGraph(AbstractBaseIR):
 
                     else:
                         # case 0b: non-dynamic (algebraic) edge — inline and reduce
+                        # constants of the edge operators become arguments of the edge equation (as in case 0c)
+                        for _ok in edge_ir.op_graph.nodes:
+                            for vk, vi in edge_ir.op_graph.nodes[_ok].get('variables', {}).items():
+                                vi_dict = vi if isinstance(vi, dict) else {}
+                                if vi_dict.get('vtype', 'constant') == 'constant' and vk not in edge_var_map:
+                                    const_name = f'{vk}_edge{i}'
+                                    val = vi_dict.get('value', 0.0)
+                                    if isinstance(val, list):
+                                        val = val[0]
+                                    args[const_name] = {'vtype': 'constant', 'dtype': 'float', 'value': float(val),
+                                                        'shape': (1,)}
+                                    expr_map[vk] = const_name
                         last_out = None
                         for _ok in topological_sort(edge_ir.op_graph):
                             _od = edge_ir.op_graph.nodes[_ok]
